@@ -24,8 +24,8 @@ ANCHORS = ["IntegratorArray.closed_newton_cotes", "IntegratorArray.open_newton_c
 MIN_COUNTERS = {"rules_checked": 40, "history_calls": 300, "scalar_integrals": 50, "function_integrals": 20, "lenghts": 10}
 ASSUMPTIONS = ["float families (Chebyshev, Gauss-Legendre) judged to 1e-9 and only up to n=16",
                "closed rules are given nnodes = max(2, p+1)"]
-ENUMERATED = {"quick": (64, "every (family, n) with n <= 16 for the four rule families: all moments d < n (d < 2n Gauss)"),
-              "thorough": (80, "every (family, n): n <= 24 for the two Newton-Cotes families, n <= 16 for Chebyshev and Gauss-Legendre")}
+ENUMERATED = {"quick": (64, "every (family, n) with n <= 16 for the four rule families: all moments d < n (d < 2n Gauss)", 680),
+              "thorough": (80, "every (family, n): n <= 24 for the two Newton-Cotes families, n <= 16 for Chebyshev and Gauss-Legendre", 1000)}
 
 FAMILIES = ["closed", "open", "cheby", "gauss"]
 METHOD = {"closed": "closed-newton-cotes", "open": "open-newton-cotes", "cheby": "chebyshev", "gauss": "gauss-legendre"}
